@@ -37,10 +37,22 @@ def run(tape, scenario, want_c11=False):
     from ebpfcat.ethercat import EtherCat, SyncManager
     from ebpfcat.terminals import AerotechBase
 
-    env = Env(tape, faults=WireFaults(delay_buckets=(50e-6, 20e-6, 200e-6)))
+    # the master: a plain EtherCat, or (multi-group scenarios) a ParallelEtherCat whose
+    # logical windows come from the shared FMMULock file
+    parallel = scenario not in ("one-group", "big") and tape.chance("c18/parallel-master", 35)
+    env = Env(tape, faults=WireFaults(delay_buckets=(50e-6, 20e-6, 200e-6)), with_fs=parallel)
     world = env.world
     bus = env.bus
-    ec = EtherCat("sim0")
+    if parallel:
+        from ebpfcat.ebpfcat import ParallelEtherCat
+        ec = ParallelEtherCat("sim0")
+        ec.ethertype = 0x3001
+        bus.route_by_data0 = True
+    else:
+        ec = EtherCat("sim0")
+    # sync groups started (and stopped again) before each of this run's groups took that
+    # many logical windows from the master's allocator
+    AGING = [0, 0, 0, 1, 7, 1000, 1021, 1022, 1023, 1024]
     big = scenario == "big"
     nterm = 1 + tape.draw("c18/nterm", 10)
     specs = []
@@ -289,12 +301,41 @@ def run(tape, scenario, want_c11=False):
                      f"terminal {t1} {w1} {a1}:{b1}",
                      aero=specs[t0]["aero"] or specs[t1]["aero"])
 
+    def make_devices(gr):
+        """1-3 devices per group; a terminal may be linked by several of them, written by
+        some and only read by others, in any order: the group's flag is the OR of theirs"""
+        ndev = 1 + tape.draw("c18/ndevices", 3)
+        maps = [dict() for _ in range(ndev)]
+        for k, rw in gr["members"].items():
+            users = [d for d in range(ndev) if tape.chance("c18/dev-uses-terminal", 50)] \
+                or [tape.draw("c18/dev-fallback", ndev)]
+            writers = [d for d in users if rw and tape.chance("c18/dev-writes", 50)]
+            if rw and not writers:
+                writers = [tape.pick("c18/dev-writer", users)]
+            for d in users:
+                maps[d][terms[k]] = d in writers
+            if len(users) > 1 and 0 < len(writers) < len(users):
+                world.count("c18/terminal-shared-by-writing-and-reading-devices")
+        devs = []
+        for m in maps:
+            if m:
+                dev = Dev()
+                dev.term_map = m
+                devs.append(dev)
+        return devs
+
     async def main(loop):
-        await ec.connect()
+        if parallel:
+            from ebpfcat.lock import FMMULock, LockFile
+            ec.mbx_lock_file = LockFile("/run/ebpf/sim0", *ec.terminal_addr_range)
+            ec.fmmu_lock_file = FMMULock("/run/ebpf/sim0.fmmu")
+            await EtherCat.connect(ec)
+        else:
+            await ec.connect()
         for gi, gr in enumerate(groups):
-            dev = Dev()
-            dev.term_map = {terms[k]: rw for k, rw in gr["members"].items()}
-            sg = SyncGroup(ec, [dev])
+            for _ in range(tape.pick("c18/windows-taken-before", AGING)):
+                ec.get_fmmu_addr()
+            sg = SyncGroup(ec, make_devices(gr))
             size, n = predicted(gr)
             must_overflow = size > 1500 or n > 15
             try:
@@ -306,6 +347,11 @@ def run(tape, scenario, want_c11=False):
                          f"group {gi}: needs {size} bytes in {n} datagrams")
                 continue
             except Exception as e:
+                if parallel and ec.fmmu_lock_file.base_addr >= (1 << 31) - 0x2000:
+                    # more than 1023 windows taken by the process with the highest
+                    # number: the 31-bit logical address space is used up
+                    world.count("c18/logical-address-space-exhausted")
+                    continue
                 viol("group-start-raised", f"group {gi}: {type(e).__name__}: {e}",
                      exception=type(e).__name__)
                 continue
